@@ -3,6 +3,53 @@ logging compliance mock, identity-verifier mock with per-account verdicts and a 
 from common import ABC, set_field
 
 NAME = "Rwa"
+
+
+def _first(d):
+    return sorted(d)[0]
+
+
+def _bump(ev, path, by=1):
+    cur = ev
+    for k in path[:-1]:
+        cur = cur[k]
+    cur[path[-1]] += by
+    return ev
+
+
+def _drop_calls(ev, kinds):
+    n = len(ev["calls"])
+    ev["calls"] = [c for c in ev["calls"] if c["k"] not in kinds]
+    return ev if len(ev["calls"]) != n else None
+
+
+def _moves(ev):
+    return ev["res"] == "ok" and ev["op"]["op"] in ("transfer", "transfer_from", "forced_transfer", "mint", "burn")
+
+
+_SELFTEST = [
+    # a frozen amount nobody froze (C04_gate_state / C04_frozen_inv)
+    lambda ev: _bump(ev, ["obs", "frozen", _first(ev["obs"]["frozen"])]),
+    # a refused holder transfer reported as successful
+    lambda ev: set_field(ev, ["res"], "ok") if ev["op"]["op"] in ("transfer", "transfer_from") and ev["res"] == "fail" else None,
+    # a successful movement without its compliance notification (C04_compliance_log)
+    lambda ev: _drop_calls(ev, ("transferred", "created", "destroyed")) if _moves(ev) else None,
+    # ... with a notification for another amount
+    lambda ev: _bump(ev, ["calls", len(ev["calls"]) - 1, "amt"]) if _moves(ev) else None,
+    # a transfer that never asked the compliance contract (C04_gates)
+    lambda ev: _drop_calls(ev, ("can_transfer",)) if _moves(ev) else None,
+    # supply no longer the sum of the balances (C01_rwa_sum)
+    lambda ev: _bump(ev, ["obs", "supply"]),
+    # a failed call that left an allowance behind (C01_rwa_fail)
+    lambda ev: _bump(ev, ["obs", "allow", _first(ev["obs"]["allow"]), _first(ev["obs"]["allow"])]) if ev["res"] == "fail" else None,
+    # a holder transfer nobody authorized (C04_auth, C02_rwa_debit)
+    lambda ev: set_field(ev, ["op", "auth"], []) if ev["op"]["op"] == "transfer" and ev["res"] == "ok" else None,
+    # a supervisory debit that unfroze one token too many (C04_supervisory_min)
+    lambda ev: _bump(ev, ["obs", "frozen", ev["op"]["from"]], -1)
+    if ev["op"]["op"] in ("forced_transfer", "burn") and ev["res"] == "ok" and ev["obs"]["frozen"][ev["op"]["from"]] > 0 else None,
+    # a mint that moved one token more than asked (C01_rwa_delta)
+    lambda ev: _bump(_bump(ev, ["obs", "bal", ev["op"]["to"]]), ["obs", "supply"]) if ev["op"]["op"] == "mint" and ev["res"] == "ok" else None,
+]
 _kinds = {"mint", "transfer", "transfer_from", "approve", "forced_transfer", "burn", "recover", "freeze", "unfreeze",
           "set_frozen", "pause", "unpause", "set_id", "set_ct", "set_cc", "set_rec"}
 _c = dict(Acct=ABC, Amts={0, 1, 2}, NegAmt=False, Now0=10, DU=100, AllAuth=False, Kinds=_kinds, EmitMod=1)
@@ -39,7 +86,7 @@ MODEL = dict(
           ("unfreeze", "ok"), ("unfreeze", "fail"), ("set_frozen", "ok"), ("pause", "ok"), ("pause", "fail"),
           ("unpause", "ok"), ("unpause", "fail"), ("set_id", "ok"), ("set_ct", "ok"), ("set_cc", "ok"),
           ("set_rec", "ok")],
-    selftest=[],
+    selftest=_SELFTEST,
 )
 SERVES = {
     "C04": dict(assumptions=[
